@@ -17,7 +17,7 @@ the rules see:
   S4  tail guard          last statement of a loop / function body `if c: S`
                                                          ->  `if not c: continue/return` ; S
   S5  guard splitting     `if a or b: J` (J jumps)       ->  `if a: J` ; `if b: J`
-  S6  conditional value   `x = a if c else b` -> if/else ; `return a if c else b` -> guard + return
+  S6  conditional value   `if c: x = a else: x = b` -> `x = a if c else b` ; `return a if c else b` -> guard + return
                           `x = a` ; `if c(x): x = b(x)`  ->  `x1 = a` ; `if c(x1): x = b(x1) else: x = x1`
   S17 equal branches      `if a: X elif b: Y else: X`    ->  `if not a and b: Y else: X`
   S7  accumulation loops  `v = []` ; `for x in it: [if c:] v.append(e)`  ->  `v = [e for x in it if c]`
@@ -611,6 +611,15 @@ class Canon:
             if s.orelse and jumps(s.orelse):
                 new = _loc(ast.If(test=negate(s.test), body=s.orelse, orelse=[]), s)
                 return [new] + s.body, 0
+            # S6 conditional value: `if c: x = a else: x = b`  ->  `x = a if c else b`
+            if (
+                len(s.body) == 1 and len(s.orelse) == 1
+                and all(isinstance(z, ast.Assign) and len(z.targets) == 1 and isinstance(z.targets[0], ast.Name) for z in (s.body[0], s.orelse[0]))
+                and s.body[0].targets[0].id == s.orelse[0].targets[0].id  # type: ignore[attr-defined]
+                and not _mentions(s.test, {s.body[0].targets[0].id})  # type: ignore[attr-defined]
+            ):
+                ie = _loc(ast.IfExp(test=s.test, body=s.body[0].value, orelse=s.orelse[0].value), s)  # type: ignore[attr-defined]
+                return [_loc(ast.Assign(targets=[s.body[0].targets[0]], value=ie), s)], 0  # type: ignore[attr-defined]
             # S17 branches with the same body: `if a: X elif b: Y else: X`  ->  `if not a and b: Y else: X`
             if s.orelse and len(s.orelse) == 1 and isinstance(s.orelse[0], ast.If) and s.orelse[0].orelse:
                 inner = s.orelse[0]
@@ -675,12 +684,6 @@ class Canon:
                 and all(_simple(v) or k == 0 for k, v in enumerate(s.value.elts))
             ):
                 return [_loc(ast.Assign(targets=[a], value=v), s) for a, v in zip(t.elts, s.value.elts)], 0
-            # S6 conditional value
-            if isinstance(s.value, ast.IfExp) and isinstance(t, (ast.Name, ast.Attribute)):
-                ie = s.value
-                a = _loc(ast.Assign(targets=[copy.deepcopy(t)], value=ie.body), s)
-                b = _loc(ast.Assign(targets=[copy.deepcopy(t)], value=ie.orelse), s)
-                return [_loc(ast.If(test=ie.test, body=[a], orelse=[b]), s)], 0
             # S6 default + override: `x = a` ; `if c(x): x = b(x)`  ->  `x1 = a` ; `if c(x1): x = b(x1) else: x = x1`
             if (
                 isinstance(t, ast.Name) and rest
